@@ -265,6 +265,7 @@ pub async fn drive_next(b: &LevelB, dag: &Dag) -> NextOutcome {
     let o2 = out.clone();
     let ord = b.orderer.clone();
     let mut ex = StepExec::new();
+    ex.detect_deferred_yields = true;
     let act = ex.add("next", Policy::Gated, async move {
         let r = ord.next().await.map_err(|(_, e)| e.to_string());
         *o2.borrow_mut() = Some(r);
